@@ -62,6 +62,11 @@ def cells(tier):
         for strict in (True, False):
             out.append(cmk(PID, tr, strict, 'string', T=T, mids=['20', '30', '100']))
     out.append(cmk(PID, ('roStoryReplace', 'roDelete'), False, 'file', T=T, mids=['7', '30'], perm=[2, 1, 0]))
+    # every message type after the roDelete, through a collection, in both modes (none is skipped or let through)
+    from .p_c09 import ALL_KINDS
+    for kind in ALL_KINDS[:-1]:
+        for strict in (True, False):
+            out.append(cmk(PID, ('roDelete', kind), strict, 'string', T=T, mids=['3', '20'], tag='after-roDelete'))
     # the roDelete shares its message ID with the roCreate / with an earlier message: it is still merged
     for strict in (True, False):
         out.append(cmk(PID, ('roStoryMove', 'roDelete'), strict, 'string', T=T, mids=['20', '1'], tag='roDelete-has-the-id-of-roCreate'))
